@@ -154,6 +154,20 @@ func shiftOps(ops []wop, base int64) {
 	}
 }
 
+// jumpOps inserts a long pause in event time: every row generated after row `from` (ids follow generation order,
+// also inside injection lists) is `delta` later.
+func jumpOps(ops []wop, from, delta int64) {
+	for i := range ops {
+		if ops[i].kind == 'A' && ops[i].id > from && ops[i].ts < harnessBase {
+			ops[i].ts += delta
+		}
+		jumpOps(ops[i].pre, from, delta)
+		for _, l := range ops[i].inj {
+			jumpOps(l, from, delta)
+		}
+	}
+}
+
 func epochBase(grid int64) int64 {
 	b := harnessBase - int64(2*time.Hour)
 	return b / grid * grid
